@@ -93,7 +93,7 @@ G9(e, subj) == /\ subj.fam = "rd" /\ subj.kind = "buffered_seekcur"
                /\ e.op = "seek" /\ e.whence = "cur"
                /\ e.r > SeekTarget("cur", e.o)
 (* (the inner reader may even end up beyond the end of the stream: then nothing is left)  *)
-KF9(e, subj) == G9(e, subj) /\ vc' = (IF e.r > VLen THEN VLen ELSE e.r) /\ UNCHANGED <<view, sent, wireVars>>
+KF9(e, subj) == G9(e, subj) /\ vc' = (IF e.r > VLen THEN VLen ELSE e.r) /\ UNCHANGED <<view, sent, wp, wireVars>>
 
 (* C13-KF10: ZeroCopyReader: a request larger than the buffer capacity (zc_read, peek,    *)
 (* read_optimized) finds the buffer full, takes "0 bytes filled" for end of stream and     *)
@@ -111,7 +111,7 @@ G11(e, subj) == /\ subj.fam = "rd" /\ subj.kind = "vectored"
                 /\ e.op = "readn"
                 /\ Len(e.got) <= e.k /\ vc + Len(e.got) <= VLen
                 /\ e.got /= Slice(vc, Len(e.got))
-KF11(e, subj) == G11(e, subj) /\ vc' = vc + Len(e.got) /\ UNCHANGED <<view, sent, wireVars>>
+KF11(e, subj) == G11(e, subj) /\ vc' = vc + Len(e.got) /\ UNCHANGED <<view, sent, wp, wireVars>>
 
 (* C13-KF12: VectoredIO::write_vectored goes on to the next buffer after a short write:   *)
 (* the sink misses the tail of the first buffer although the count covers it.              *)
